@@ -8,7 +8,7 @@ import ast
 import z3
 
 from . import theory as T
-from . import types as TY
+from . import tys as TY
 from .sv import (SV, NONE, NOTIMPL, MObj, Frame, Closure, BoundMethod, BuiltinRef, ReturnEx, BreakEx, ContinueEx,
                  SymRaise, PathEnd, OutOfSubset, StaleContract, mk_int, mk_bool, mk_real, mk_str, mk_bytes)
 
